@@ -1,0 +1,114 @@
+//go:build verif
+
+// Contracts for the deductive verifier in /verif (gvc). This file contains comments only:
+// it adds no code to the package, with or without the "verif" build tag.
+
+package migrate
+
+//@ import "context"
+//@ import "hash"
+//@ import "database/sql"
+//@ import "encoding/base64"
+//@ import "ariga.io/atlas/sql/schema"
+
+// ---------------------------------------------------------------------------------------
+// Ghost state: what the outside world has seen.
+
+//@ ghost var GvcExec GvcSeq[string]
+//@ ghost var GvcStore GvcMap[string, GvcRevSnap]
+//@ ghost var GvcWrites int
+
+//@ spec type GvcRevSnap struct {
+//@ spec 	Applied, Total int
+//@ spec 	Error, Hash    string
+//@ spec 	NPartial       int
+//@ spec }
+//@ spec func gvcSnap(r *Revision) GvcRevSnap {
+//@ spec 	return GvcRevSnap{Applied: r.Applied, Total: r.Total, Error: r.Error, Hash: r.Hash, NPartial: len(r.PartialHashes)}
+//@ spec }
+//@ spec func gvcStmts(e *Executor, m File) []*Stmt { s, _ := e.fileStmts(m); return s }
+//@ spec func gvcIsWRE(err error) bool { return errors.As(err, new(*WriteRevisionError)) }
+//@ spec func gvcK0(has bool, s GvcRevSnap) int {
+//@ spec 	if has {
+//@ spec 		return s.Applied
+//@ spec 	}
+//@ spec 	return 0
+//@ spec }
+//@ spec func gvcHas(v string) bool        { return GvcAget(GvcStore.Has, v) }
+//@ spec func gvcRev(v string) GvcRevSnap  { return GvcAget(GvcStore.Val, v) }
+
+// ---------------------------------------------------------------------------------------
+// Assumed contracts of the interfaces Execute talks to.
+
+//@ extern func (f File) Name() (s string)
+//@   pure
+//@ extern func (f File) Version() (s string)
+//@   pure
+//@ extern func (f File) Desc() (s string)
+//@   pure
+//@ extern func (d Dir) Checksum() (h HashFile, err error)
+//@ extern func (l Logger) Log(en LogEntry)
+//@ extern func (h hash.Hash) Write(p []byte) (n int, err error)
+//@   ensures err == nil
+//@ extern func (h hash.Hash) Sum(b []byte) (r []byte)
+//@ extern func sha256.New() (h hash.Hash)
+//@   ensures h != nil
+//@ extern func (enc *base64.Encoding) EncodeToString(src []byte) (s string)
+
+//@ extern func (q schema.ExecQuerier) ExecContext(ctx context.Context, query string, args ...any) (res sql.Result, err error)
+//@   effect if err == nil { GvcExec = GvcPush(GvcExec, query) }
+//@   ensures !gvcIsWRE(err)
+
+//@ extern func (rw RevisionReadWriter) ReadRevision(ctx context.Context, v string) (r *Revision, err error)
+//@   ensures err == nil ==> r != nil && r.Version == v && GvcAget(GvcStore.Has, v) && gvcSnap(r) == GvcAget(GvcStore.Val, v)
+//@   ensures err == nil ==> 0 <= r.Applied && r.Applied <= len(r.PartialHashes)
+//@   ensures err != nil && errors.Is(err, ErrRevisionNotExist) ==> !GvcAget(GvcStore.Has, v)
+
+//@ extern func (rw RevisionReadWriter) WriteRevision(ctx context.Context, r *Revision) (err error)
+//@   requires r != nil
+//@   effect if err == nil { GvcStore = GvcPut(GvcStore, r.Version, gvcSnap(r)); GvcWrites++ }
+
+// ---------------------------------------------------------------------------------------
+
+//@ func (f HashFile) SumByName(n string) (s string, err error)
+//@   trusted
+
+//@ func (e *Executor) fileStmts(f File) (stmts []*Stmt, err error)
+//@   trusted
+//@   pure
+//@   ensures err == nil ==> (forall i int :: 0 <= i && i < len(stmts) ==> stmts[i] != nil)
+
+//@ func (e *Executor) Execute(ctx context.Context, m File) (err error)
+//@   requires e != nil && m != nil && e.dir != nil && e.rrw != nil && e.log != nil && e.drv != nil
+//@   requires GvcExec.N >= 0
+//@   modifies struct(Revision), heap(E_string), GvcExec, GvcStore, GvcWrites
+//@   ensures trace-prefix-kept: GvcExec.N >= old(GvcExec.N) &&
+//@           (forall j int :: 0 <= j && j < old(GvcExec.N) ==> GvcAt(GvcExec, j) == old[string](GvcAt(GvcExec, j)))
+//@   ensures in-order-once: gvcK0(old(gvcHas(m.Version())), old(gvcRev(m.Version()))) + GvcExec.N - old(GvcExec.N) <= len(gvcStmts(e, m)) || GvcExec.N == old(GvcExec.N)
+//@   ensures in-order-once-text: (forall j int :: 0 <= j && j < GvcExec.N - old(GvcExec.N) ==>
+//@           GvcAt(GvcExec, old(GvcExec.N)+j) == gvcStmts(e, m)[gvcK0(old(gvcHas(m.Version())), old(gvcRev(m.Version())))+j].Text)
+//@   ensures history-not-ahead: gvcHas(m.Version()) && GvcExec.N > old(GvcExec.N) ==>
+//@           gvcRev(m.Version()).Applied <= gvcK0(old(gvcHas(m.Version())), old(gvcRev(m.Version()))) + GvcExec.N - old(GvcExec.N) &&
+//@           gvcK0(old(gvcHas(m.Version())), old(gvcRev(m.Version()))) + GvcExec.N - old(GvcExec.N) <= gvcRev(m.Version()).Applied + 1
+//@   ensures history-exact-unless-write-failed: !gvcIsWRE(err) && GvcExec.N > old(GvcExec.N) ==>
+//@           gvcHas(m.Version()) && gvcRev(m.Version()).Applied == gvcK0(old(gvcHas(m.Version())), old(gvcRev(m.Version()))) + GvcExec.N - old(GvcExec.N)
+//@   ensures complete: err == nil ==> gvcHas(m.Version()) && gvcRev(m.Version()).Applied == len(gvcStmts(e, m)) && gvcRev(m.Version()).NPartial == 0 &&
+//@           gvcK0(old(gvcHas(m.Version())), old(gvcRev(m.Version()))) + GvcExec.N - old(GvcExec.N) == len(gvcStmts(e, m))
+//@   ensures stops-at-failed-stmt: GvcIs[*StmtExecError](err) ==>
+//@           gvcK0(old(gvcHas(m.Version())), old(gvcRev(m.Version()))) + GvcExec.N - old(GvcExec.N) < len(gvcStmts(e, m)) &&
+//@           err.(*StmtExecError).Stmt == gvcStmts(e, m)[gvcK0(old(gvcHas(m.Version())), old(gvcRev(m.Version()))) + GvcExec.N - old(GvcExec.N)]
+//@   ensures changed-history-refused: GvcIs[HistoryChangedError](err) ==> GvcExec.N == old(GvcExec.N) &&
+//@           (gvcHas(m.Version()) ==> old(gvcHas(m.Version())) && gvcRev(m.Version()).Applied == old(gvcRev(m.Version())).Applied &&
+//@            gvcRev(m.Version()).Total == old(gvcRev(m.Version())).Total && gvcRev(m.Version()).Hash == old(gvcRev(m.Version())).Hash &&
+//@            gvcRev(m.Version()).NPartial == old(gvcRev(m.Version())).NPartial)
+//@   ensures truncated-file-refused: old(gvcHas(m.Version())) && old(gvcRev(m.Version())).Applied > len(gvcStmts(e, m)) ==> err != nil && GvcExec.N == old(GvcExec.N)
+//@   loop 2 invariant 0 <= i && i <= len(sums)
+//@   loop 3 invariant err == nil
+//@   loop 3 invariant r.Applied == len(stmts) - len(loopx) + loopk
+//@   loop 3 invariant 0 <= loopk && loopk <= len(loopx) && len(loopx) <= len(stmts)
+//@   loop 3 invariant GvcExec.N == old(GvcExec.N) + r.Applied - gvcK0(old(gvcHas(m.Version())), old(gvcRev(m.Version())))
+//@   loop 3 invariant gvcHas(r.Version) && gvcRev(r.Version).Applied == r.Applied
+//@   loop 3 invariant (forall j int :: 0 <= j && j < old(GvcExec.N) ==> GvcAt(GvcExec, j) == old[string](GvcAt(GvcExec, j)))
+//@   loop 3 invariant (forall j int :: 0 <= j && j < GvcExec.N - old(GvcExec.N) ==>
+//@           GvcAt(GvcExec, old(GvcExec.N)+j) == stmts[gvcK0(old(gvcHas(m.Version())), old(gvcRev(m.Version())))+j].Text)
+//@   loop 3 invariant r.Applied >= gvcK0(old(gvcHas(m.Version())), old(gvcRev(m.Version())))
